@@ -15,6 +15,8 @@ def plan(tier, seed):
             ch("C04", F, "h_cat_stats_nulls", t, wc_lattice.FUN, env=envc)]
     jobs.append(ch("C04", "vf/pyshim/h_convert.py", "h_convert_intlike", t,
                    ["converted_types.convert (integer-like converted types; decoded statistics)"]))
+    jobs.append(ch("C04", "vf/pyshim/h_convert.py", "h_stat_bound_decodes", t,
+                   ["encoding.read_plain (stat=True)", "converted_types.convert"]))
     jobs.append(ch("C04", "vf/pyshim/h_convert.py", "h_stat_text_decodes", t,
                    ["converted_types.convert (UTF8 branch for bytes arrays: decoded text statistics)"]))
     jobs.append(ch("C04", "vf/pyshim/h_convert.py", "h_writer_convert_ints", t,
